@@ -4,7 +4,8 @@ C05  Duplicate keys are resolved exactly as the chosen merge_strategy says.
 Model-based monitor: histories of features with colliding keys are fed to the real create_db and FeatureDB.update
 and, arrival by arrival, to the sequential reference model gvmon/models/C05.py; the final database (read with plain
 sqlite3) must contain exactly the model's features (keys, columns, attribute value sets, forced columns as token sets)
-and exactly the level-1 relations that the Parent values of the features *as finally stored* call for.
+and exactly the level-1 relations that the Parent values of the features *as finally stored* call for.  Every stored
+feature is then read through the live FeatureDB handle (db[key], str(), region / all_features(limit=) at its position).
 
 Violation reasons are kept apart by their first word:
     outcome:    raised / did not raise against the strategy
@@ -531,7 +532,6 @@ def live(ctx, case, db, key, e, row, stored, moved):
 
 
 def store_log(case):
-    tk, gk = link_keys(case)
     return M.run(case["strategy"], case["force"], case["batches"], case["idkey"])[0].log
 
 
@@ -640,7 +640,7 @@ def run(ctx):
         for case in MINIMAL:
             account(ctx, case, execute(ctx, case))
     # 1. merge: every subset of the forceable columns x importer x path
-    reps = 6 if ctx.tier == "quick" else 60
+    reps = 5 if ctx.tier == "quick" else 60
     i = 0
     for force in M.subsets():
         for fmt in ("gff3", "gtf"):
@@ -653,7 +653,7 @@ def run(ctx):
                     case = G.gen_history(rng, fmt, "merge", force, path, opts=draw_opts(rng, fmt, shuffle=bool(r % 2)))
                     account(ctx, case, execute(ctx, case))
     # 2. the other strategies (and more merge), random force sets
-    for _ in range(ctx.budget(3000, 60000)):
+    for _ in range(ctx.budget(2600, 60000)):
         strategy = rng.choice(["error", "warning", "replace", "create_unique", "create_unique", "merge"])
         force = rng.choice(M.subsets())
         fmt = rng.choice(["gff3", "gtf"])
@@ -726,7 +726,11 @@ MANIFEST = {
             "abort, start/end in force_merge_fields must be refused, and the level-1 relations must be exactly the Parent "
             "values of the features as finally stored. Layered over the histories: valueless attribute keys, '.' start/end, "
             "shuffled force_merge_fields, non-default GTF transcript/gene keys (level-1 and direct level-2 rows judged under "
-            "the given keys) and keys that collide in create_db and again in several later update() runs.",
+            "the given keys), keys that collide in create_db and again in several later update() runs, the verbose argument "
+            "(False / True / 'debug', also one history under all three), colliding lines with differing extra (10th, 11th) "
+            "columns and arrivals in different genomic bins. Every stored feature is also read through the live handle: "
+            "db[key] against the model, str(db[key]) against the kept arrival's line (merged features: columns and attribute "
+            "parts), and it must be found by region(completely_within=True) and all_features(limit=) at its position.",
     "note": "Trusted: gvmon/models/C05.py and the reference renderer. The relation part is reported under its own reason "
             "('relations: ...') so that it can be told apart from feature/attribute mismatches.",
 }
